@@ -48,6 +48,9 @@ KEY_PRIORITY: list[str] = []
 # a triple-quoted / prefixed string literal as the WHOLE enum value used to take the Literal shortcut of py2cpp.py (tokens[1:-1], no
 # evaluator); repaired in 61fd1e4 (it is refused now): a mismatch there is a regression and keeps this key
 LONE_LITERAL_KEY = 'output-lone-nonplain-string-literal'
+# relay/literalize.j2 prints the content of a str value raw between double quotes: a double quote in the content ends the C++ literal early
+OUTPUT_QUOTE_KEY = 'output-unescaped-double-quote'
+UNESCAPED_DQ = re.compile(r'(?<!\\)(?:\\\\)*"')
 
 
 # ---------------------------------------------------------------------------------------------
@@ -891,6 +894,8 @@ def classify_case(desc: dict[str, Any]) -> str:
 def members_histogram(cases: list[Case], which: str) -> dict[str, int]:
 	h: dict[str, int] = {}
 	for c in cases:
+		if c.error is not None:
+			continue
 		for m in c.members:
 			r = c.real[m.key] if which == 'impl' else show_py(c.py[m.key])
 			k = r.split(' ')[0]
@@ -1190,7 +1195,9 @@ def compare_output(text: str, py: Any, escaped: bool) -> str | None:
 		return f'the emitted text {text!r} is not a literal; CPython gives {show_value(py)}'
 	kind, v = got
 	if kind == 'str' and type(py) is str:
-		content = unescape(v) if escaped else v
+		if UNESCAPED_DQ.search(v):
+			return f'the emitted text {text!r} is not one C++ string literal (unescaped double quote in the content); CPython gives {py!r}'
+		content = unescape(v)  # the C++ reader decodes the escapes of the literal (a content without backslash is unchanged)
 		return None if content == py else f'the emitted text {text!r} has the content {content!r}, CPython gives {py!r}'
 	if kind in ('int', 'float') and type(py) in (int, float) and kind == type(py).__name__:
 		return None if show_value(v) == show_value(py) else f'the emitted text {text!r} is {show_value(v)}, CPython gives {show_value(py)}'
@@ -1348,14 +1355,16 @@ def search_output(ctx: Ctx, cases: list[Case]) -> SearchResult:
 			if lone:
 				hist['shape:lone-nonplain-string-literal'] = hist.get('shape:lone-nonplain-string-literal', 0) + 1
 			if bad:
-				if lone:
+				if 'unescaped double quote' in bad:
+					key = OUTPUT_QUOTE_KEY
+				elif lone:
 					key = LONE_LITERAL_KEY
 				else:
 					key = f"output-mismatch:{(read_emitted(text) or ('text', None))[0]}-vs-{show_py(py[m.key]).split(' ')[0]}"
 				add(key, f'{m.key} = {m.text}: {bad}', {'source': source, 'member': m.key, 'text': m.text, 'emitted': text, 'eval': show_py(py[m.key]), 'features': sorted(m.feats), 'kind': 'output'})
 			elif len(res.samples) < 3 and len(m.text) > 10:
 				res.samples.append({'member': m.text, 'emitted': text, 'eval': show_py(py[m.key])})
-	known = set(EXCLUDED_KEYS.values())
+	known = set(EXCLUDED_KEYS.values()) | {OUTPUT_QUOTE_KEY}
 	res.findings = [f for f in res.findings if f.key not in known] + [f for f in res.findings if f.key in known]
 	res.distinct = len(texts)
 	res.histogram = hist
@@ -1374,7 +1383,8 @@ STATEMENTS = {
 	'refuse': 'an error of execImpl is a refusal (OperationNotAllowed, UnresolvedSymbol, an error of type inference, the recursion limit) or CPython raises on e as well, as long as no 0X literal is evaluated',
 	'chain': 'evaluating the left-nested tree CPython builds for a flat chain = the left fold over the chain (operand, operation, left to right, first exception wins)',
 	'consistent_bindAll': "executing the Enum bodies top to bottom yields an environment consistent with the folder's member lookup when member keys are distinct (hypothesis Cons is satisfiable)",
-	'output_agree': "second observation point, no guard but one: whenever CPython evaluates the member value to v2 and the type answer of Reflections fits v2, the text Py2Cpp.on_relay inlines for Enum.Member.value (emitValue on top of execImpl: shortcut for Integer/Float tokens, str() of the folded value, parentheses for negatives, [1:-1] for str, relay/literalize.j2) read back denotes v2 with the same type",
+	'output_agree': "second observation point, no guard but one: whenever CPython evaluates the member value to v2 and the type answer of Reflections fits v2, the text Py2Cpp.on_relay inlines for Enum.Member.value (emitValue on top of execImpl: shortcut for Integer/Float tokens, str() of the folded value, parentheses for negatives, [1:-1] for str, relay/literalize.j2) read back denotes v2 with the same type; guard on the VALUE: a string value contains no double quote (the template prints the content raw)",
+	'quote_in_value_counterexample': "the guard hq of output_agree/output_sound (a string value contains no double quote) is necessary: the enum value 'say \"hi\"' is inlined as \"say \"hi\"\", not one C++ literal (finding output-unescaped-double-quote); mixed-quote joins like 'a' + \"it's\" are fine (content and emitted text)",
 	'output_sound': 'and when on_relay fails instead it is a refusal (0X literals cut out)',
 	'upperhex_counterexample': 'guard H4 is necessary for sound/refuse: 0X1F is 31 in CPython, the folder raises a wrapped ValueError (an application error, allowed by the property)',
 	'escape_counterexample': "documentation of the hazard: plain _cat does not commute with decoding escapes (decodeEsc: octal, \\xhh, one-character and unknown escapes): the bodies \\1 and 2 would join to \\12 = one newline character; tokens with a backslash are outside evalPy",
